@@ -56,13 +56,27 @@ pub enum Note {
     Snapshot { unchanged: bool, value: Vec<i64>, skipped: Vec<i64> },
     /// "observed non-deterministic order", "observered non-deterministic order",
     /// "observed partially-ordered interleaving", "observed non-deterministic merge order"
-    Observed { what: &'static str, nums: Vec<i64>, labels: Vec<char> },
+    Observed { what: &'static str, nums: Vec<i64>, labels: Vec<char>, keyed_map: bool },
     /// "fold input batch (permuted): [..]"
     FoldBatch { nums: Vec<i64> },
     Other(String),
 }
 
 impl Note {
+    /// Coarse category used to recognise which hook type wrote the note.
+    pub fn category(&self) -> &'static str {
+        match self {
+            Note::NoItems => "none",
+            Note::Items { unordered: false, .. } => "items",
+            Note::Items { unordered: true, .. } => "uitems",
+            Note::KeyedSnap { .. } => "ksnap",
+            Note::Snapshot { .. } => "snap",
+            Note::Observed { what: "order", keyed_map: true, .. } => "korder",
+            Note::Observed { what, .. } => what,
+            Note::FoldBatch { .. } => "fold",
+            Note::Other(_) => "other",
+        }
+    }
     /// Does this note say that something *new* was released into the tick / out of the hook?
     pub fn releases_new(&self) -> bool {
         match self {
@@ -158,7 +172,7 @@ pub fn parse_note(text: &str) -> Note {
             } else {
                 vec![]
             };
-            return Note::Observed { what, nums: nums(rest), labels };
+            return Note::Observed { what, nums: nums(rest), labels, keyed_map: rest.trim_start().starts_with('{') };
         }
     }
     if let Some(rest) = t.strip_prefix("fold input batch (permuted): ") {
